@@ -1,10 +1,11 @@
 -- REGENERATED from /repo by tools/extract on every run. Do not edit.
 namespace CaddyModel.Gen
 
-/-- header names whose values `LoggableHTTPHeader` replaces by REDACTED (marshalers.go) -/
+/-- header names whose values `LoggableHTTPHeader` replaces by REDACTED (marshalers.go): the string literals
+    listed together with "authorization" -/
 def redactedHeaderNames : List String := ["authorization", "cookie", "proxy-authorization", "set-cookie"]
 
-/-- the redaction switch is keyed on `strings.ToLower(key)` -/
+/-- the function that lists them folds the case of the header name (strings.ToLower / EqualFold) -/
 def redactionIsCaseFolded : Bool := true
 
 end CaddyModel.Gen
